@@ -168,6 +168,33 @@ def run(chk, tier):
                           {"where": astx.loc(f)})
     if n_ext < 3:
         chk.analysis_broken("TIE-ELEM: only %d of min_element/max_element/minmax_element analysed (floor 3)" % n_ext)
+    n_mrg = 0
+    for name, table in IT.MERGE_SPEC.items():
+        for f in [g for g in funcs if g["n"] == name and IT.functor_params(g) and g.get("body") is not None]:
+            n_mrg += 1
+            construct = astx.sig(f)
+            chk.instance("MERGE3")
+            bad = None
+            unknown = None
+            for o in "<=>":
+                try:
+                    got = IT.merge_step(f, o)
+                except IT._StepUnmodelled as ex:
+                    unknown = str(ex)
+                    break
+                want = table[o]
+                if (got[0], got[1], got[2]) != (want[0], want[1], want[2]) and bad is None:
+                    bad = (o, got, want)
+            chk.obligation("MERGE3", construct, False if bad else (None if unknown else True), evaluations=3)
+            if bad:
+                o, got, want = bad
+                desc = lambda t: "advances the first range by %d and the second by %d and writes %s" % (t[0], t[1], ("from range " + ", ".join(t[2])) if t[2] else "nothing")
+                chk.violation("MERGE3", construct, "merge-step", "%s: when *first1 %s *first2 one step %s; %s %s" % (
+                    astx.loc(f), {"<": "is less than", "=": "is equivalent to", ">": "is greater than"}[o], desc(got), name, desc(want)), {"where": astx.loc(f)})
+            elif unknown:
+                chk.unknown_instance("MERGE3", construct, "step not modelled: " + unknown)
+    if n_mrg < 5:
+        chk.analysis_broken("MERGE3: only %d of the merge-like algorithms found (floor 5)" % n_mrg)
     n_cfg = 0
     for f in funcs:
         r = IT.check_static_agreement(f)
